@@ -223,6 +223,12 @@ def build_call(a, name, names, depth=0):
     return f'{name}({", ".join(parts)})', interesting
 
 
+UNKNOWN_NAMES = ['__class__', '__iter__', '__getattribute__', '__init__', '__dict__', '__reduce__', 'encode', 'title', 'format', 'zfill',
+                 'join', 'keys', 'append', 'copy', 'items', 'count', '__globals__', '__call__', 'real', 'as_tuple', 'to_eng_string', 'clear',
+                 'setdefault', 'update', 'sort', 'isdigit', 'splitlines', 'partition', '__len__', '__getitem__9', 'open', 'eval', 'exec',
+                 '__import__', 'getattr', 'type', 'vars', 'dir', 'globals', 'iter', 'next', 'zip', 'range', 'print', 'input']
+UNKNOWN_FORMS = ['a0.{u}()', 'a0.{u}(a1)', 'a0 | {u}', 'a0 | {u}(a1)', '{u}(a0)', '{u}(a0, a1)', 'r = a0.{u}()\nr', 'map([a0], v => v.{u}())',
+                 'x = a0\nx.{u}(a1)\nx', '{u}()', 'a0.{u}().{u2}()']
 VALUE_FORMS = ['{b}[a0]', '{b}[a0:a1]', '{b} + a0', 'str({b})', '[{b}][0][a0]', 'a0 in {b}', '-{b}', '{b} == {b}',
                '{{{b}: 1}}', 'd = {{}}\nd[{b}] = 1\nd', 'get({b}, a0)', 'len({b})', '{b} | keys', 'sorted([{b}, {b}])',
                'r = {b}\nr[a0]', '{b} | {b2}', '{b}.{b2}(a0)', 'x = [{b}]\nx[0][a0][a1]', '{b} if a0 else {b2}',
@@ -234,6 +240,12 @@ def sweep_cases(draw, table):
     a = shapes.Args(draw)
     a.table = table
     names = {}
+    if a.n(9) == 0:
+        # a name that is not in the function table, called on every kind of receiver (the sandbox must not fall back to Python attributes)
+        names['a0'] = a.value(a.pick(['str', 'hostile', 'any', 'list', 'dict', 'num', 'str']))
+        names['a1'] = a.value(a.pick(['str', 'hostile', 'any', 'key']))
+        src = a.pick(UNKNOWN_FORMS).format(u=a.pick(UNKNOWN_NAMES), u2=a.pick(UNKNOWN_NAMES))
+        return {'src': src, 'names': core.enc(names), 'builtin': 'len', 'interesting': True, 'as_value': True, 'unknown_name': True}
     if a.n(8) == 0:
         # a builtin used as a value: indexed, sliced, compared, stored as key, piped into another builtin ...
         form = a.pick(VALUE_FORMS)
